@@ -93,7 +93,7 @@ def run_wave(cls, c, d, lanes, caps, inw, reuse=False, strip=False, actrl=None, 
     if T is None:
         w.c_to_s()
     else:
-        w.c_to_s(time=dec(T) if T >= INF else float(T))
+        w.c_to_s(time=float(T))
     return w
 
 
@@ -120,7 +120,7 @@ def observe(w, c, lanes, enc, lines=True):
 def base_record(pid, c, lanes, d, poldep, inw):
     st = lsim.struct(c)
     dl = [[[int(d[0, x, a, b]) for b in range(2)] for a in range(2)] for x in range(len(c.lines))]
-    return dict(pid=pid, st=st, lanes=lanes, dl=dl, poldep=bool(poldep), inw=inw, waves=[], port=[], s=[], caps=[], pcaps=[], T=INF,
+    return dict(pid=pid, st=st, lanes=lanes, dl=dl, poldep=bool(poldep), inw=inw, waves=[], port=[], s=[], caps=[], pcaps=[], T2=2 * INF,
                 has=dict(c03=False, c04=False, c05=False, c13=False, shift=False, scale=False, big=False, abuf=False),
                 sh=dict(d=0, waves=[], port=[]), sc=dict(f=1, waves=[], port=[]), resp8=[], big=dict(port=[]),
                 actrl=[], abuf=[], raised=False, offgrid=False)
